@@ -145,7 +145,189 @@ def gen_rt(rng):
     return {"op": "seqrt", "fwd": True, "acts": acts, "env": env, "shape": "rt"}
 
 
+# ---- scripts: ONE table of Action objects, each executed any number of times (forwards / unsetup mode)
+# while the list variable and the variables that the values refer to change in between
+
+REF_KEYS = ["OTHER", "TOOLVER", "HOME"]
+REF_VALUES = ["1.0", "2.0", "/o/ther", "/n/ew", "v 3", "a.b", "/root"]
+REF_FORMS = ["/opt/${%s}/bin", "${%s}", "$?{%s}/lib", "-I/inc/$?{%s}/x", "${%s-/dflt}/x", "/p/${%s}/${HOME}", "$?{%s}",
+             "${%s}/${%s}"]
+
+
+def gen_ref_form(rng, key):
+    f = rng.choice(REF_FORMS)
+    return f % ((key,) * f.count("%s"))
+
+
+def script_env0(rng, keys):
+    env = {"HOME": "/root"}
+    for k in keys:
+        if k != "HOME" and rng.random() < 0.85:
+            env[k] = rng.choice(REF_VALUES)
+    return env
+
+
+def gen_script_same(rng):
+    """one action whose value refers to a variable: forwards, [unsetup], the variable changes (and the list is
+    rolled back / inherited with the new element / left alone), unsetup, [forwards again], possibly twice over"""
+    d = rng.choice([":", ":", ";", " ", ","])
+    pool = [p for p in POOL if d not in p]
+    var = rng.choice(VARS)
+    key = rng.choice(REF_KEYS[:2])
+    value = gen_ref_form(rng, key)
+    if d in value:
+        value = "/opt/${%s}/bin" % key
+    r = rng.random()
+    if r < 0.1:
+        value = d + value
+    elif r < 0.2:
+        value = value + d
+    env = script_env0(rng, [key])
+    vals = [v for v in REF_VALUES if d not in v]
+    env[key] = rng.choice(vals)
+    old = gen_old(rng, d, pool)
+    if old is not None:
+        env[var] = old
+    acts = [["P", rng.random() < 0.5, var, value, d]]
+    steps = []
+    cur = dict(env)                     # the referenced variables as the steps so far leave them
+    for _round in range(rng.choice([1, 1, 2])):
+        steps.append(["X", 0, True])
+        if rng.random() < 0.4:
+            steps.append(["X", 0, False])
+        r = rng.random()
+        if r < 0.8:
+            new = rng.choice(vals)
+            steps.append(["E", key, new])
+        elif r < 0.9:
+            steps.append(["D", key])
+            new = None
+        else:
+            new = cur.get(key)
+        r = rng.random()
+        if r < 0.5 and new is not None:
+            # the list as another shell (or a roll-back) left it: some old elements and the element of the new value
+            core = value.strip(d)
+            x = spec_expand(dict(cur, **{key: new}), core)
+            els = [rng.choice(pool) for _ in range(rng.choice([0, 1, 2]))]
+            if x is not None and d not in x and x:
+                els.insert(rng.randrange(len(els) + 1), x)
+                if rng.random() < 0.4:
+                    x0 = spec_expand(cur, core)
+                    if x0 and d not in x0:
+                        els.insert(rng.randrange(len(els) + 1), x0)
+            steps.append(["E", var, d.join(els)])
+        elif r < 0.6:
+            steps.append(["E", var, old or ""])
+        steps.append(["X", 0, False])
+        if rng.random() < 0.5:
+            steps.append(["X", 0, True])
+        if new is None:
+            cur.pop(key, None)
+        else:
+            cur[key] = new
+    return {"op": "script", "fwd": True, "acts": acts, "steps": steps, "env": env, "shape": "same-object"}
+
+
+def gen_script_act(rng, var, d, pool, n):
+    r = rng.random()
+    if r < 0.45:
+        v = rng.choice(pool)
+    elif r < 0.9:
+        v = gen_ref_form(rng, rng.choice(REF_KEYS))
+        if d in v:
+            v = rng.choice(pool)
+    else:
+        v = "/fresh/%d" % n
+    return ["P", rng.random() < 0.5, var, v, d]
+
+
+def gen_script_steps(rng, nacts, keys, vals, n):
+    steps = []
+    for _ in range(n):
+        r = rng.random()
+        if r < 0.68 or not keys:
+            steps.append(["X", rng.randrange(nacts), rng.random() < 0.55])
+        elif r < 0.93:
+            steps.append(["E", rng.choice(keys), rng.choice(vals)])
+        else:
+            steps.append(["D", rng.choice(keys)])
+    return steps
+
+
+def gen_script_onevar(rng):
+    """several different actions on ONE list variable, executed in any order and mode, any number of times,
+    interleaved with changes of the variables their values refer to"""
+    d = rng.choice([":", ":", ";", ","])
+    pool = [p for p in POOL if d not in p]
+    var = rng.choice(VARS)
+    acts = [gen_script_act(rng, var, d, pool, i) for i in range(rng.choice([2, 2, 3, 4]))]
+    env = script_env0(rng, REF_KEYS)
+    old = gen_old(rng, d, pool)
+    if old is not None:
+        env[var] = old
+    vals = [v for v in REF_VALUES if d not in v]
+    steps = gen_script_steps(rng, len(acts), REF_KEYS[:2], vals, rng.choice([3, 4, 5, 6, 8]))
+    return {"op": "script", "fwd": True, "acts": acts, "steps": steps, "env": env, "shape": "one-variable"}
+
+
+def gen_script_mixed(rng):
+    """a table of prepend/append/envSet/envUnset actions over several variables, the envSet values and the list
+    values referring to variables that other steps (or other actions of the table) change"""
+    acts = []
+    env = script_env0(rng, REF_KEYS)
+    for i in range(rng.choice([1, 2, 3, 4])):
+        r = rng.random()
+        if r < 0.55:
+            d = rng.choice([":", ":", ";"])
+            pool = [p for p in POOL if d not in p]
+            var = rng.choice(VARS)
+            if var not in env and rng.random() < 0.6:
+                env[var] = gen_old(rng, d, pool) or ""
+            acts.append(gen_script_act(rng, var, d, pool, i))
+        elif r < 0.9:
+            k = rng.choice(["V_A", "TOOLVER", "OTHER"])
+            v = rng.choice(["val", "3.0", "/p q", gen_ref_form(rng, rng.choice(REF_KEYS)), "${V_A}/y"])
+            acts.append(["S", k, v])
+        else:
+            acts.append(["U", rng.choice(["V_A", "OTHER"])])
+    steps = gen_script_steps(rng, len(acts), REF_KEYS[:2] + ["V_A"], REF_VALUES, rng.choice([2, 3, 4, 5, 6, 8]))
+    return {"op": "script", "fwd": True, "acts": acts, "steps": steps, "env": env, "shape": "mixed"}
+
+
+def gen_script(rng):
+    r = rng.random()
+    return gen_script_same(rng) if r < 0.4 else gen_script_onevar(rng) if r < 0.75 else gen_script_mixed(rng)
+
+
+def table_safe(c):
+    """can the actions of the script be written as lines of a table file that the table reader gives back unchanged
+    (no blanks, commas, quotes or parentheses in the arguments; envPrepend/envAppend only)?"""
+    ok = re.compile(r"^[A-Za-z0-9_./${}?+:;-]+$")
+    return bool(c["acts"]) and all(a[0] == "P" and ok.match(a[3]) and not a[3].startswith("#") and a[4] in ":;"
+                                   for a in c["acts"])
+
+
+def enc_act(a):
+    if a[0] == "P":
+        return ",".join(["P", "1" if a[1] else "0", enc(a[2]), enc(a[3]), enc(a[4])])
+    if a[0] == "S":
+        return ",".join(["S", enc(a[1]), enc(a[2])])
+    return ",".join(["U", enc(a[1])])
+
+
+def enc_step(st):
+    if st[0] == "X":
+        return "X,%d,%s" % (st[1], "1" if st[2] else "0")
+    if st[0] == "E":
+        return ",".join(["E", enc(st[1]), enc(st[2])])
+    return ",".join(["D", enc(st[1])])
+
+
 def to_line(c):
+    if c["op"] == "script":
+        return "\t".join(["script", "|".join(enc_act(a) for a in c["acts"]),
+                          "|".join(enc_step(st) for st in c["steps"]), enc_env(c["env"])])
     if c["op"] == "prepend":
         return "\t".join(["prepend", "1" if c["append"] else "0", "1" if c["fwd"] else "0", enc(c["var"]),
                           enc(c["value"]) or "", enc(c["delim"]), enc_env(c["env"])])
@@ -166,6 +348,8 @@ def to_line(c):
 
 def model_result(c, line):
     f = line.split("\t")
+    if f[0] == "trace":
+        return {"trace": [{"env": dict(dec_env(x[1:]))} if x[:1] == "o" else {"err": x[1:]} for x in f[1:]]}
     if f[0] == "ok":
         return {"env": dict(dec_env(f[1] if len(f) > 1 else ""))}
     if f[0] == "skip":
@@ -191,15 +375,62 @@ def impl_batch(cases):
         setEnv = E.Eups.setEnv
         unsetEnv = E.Eups.unsetEnv
 
-    def act(a, fwd, stub):
+    def mk(a):
+        """the Action object, built the way Table._read builds it"""
         if a[0] == "P":
             # the delimiter argument is optional in a table (default ":"): left out for half of the colon cases
             args = [a[2], a[3]] if implicit_delim(a[3], a[4]) else [a[2], a[3], a[4]]
-            T.Action("tbl", "envPrepend", args, {"append": bool(a[1])}).execute(stub, 1, fwd)
+            return T.Action("tbl", "envPrepend", args, {"append": bool(a[1])})
         elif a[0] == "S":
-            T.Action("tbl", "envSet", [a[1], a[2]], {}).execute(stub, 1, fwd)
+            return T.Action("tbl", "envSet", [a[1], a[2]], {})
         else:
-            T.Action("tbl", "envUnset", [a[1]], {}).execute(stub, 1, fwd)
+            return T.Action("tbl", "envUnset", [a[1]], {})
+
+    def act(a, fwd, stub):
+        mk(a).execute(stub, 1, fwd)
+
+    # (made before the cases wipe os.environ)
+    scratch = [common.scratch_dir()] if any(c["op"] == "script" and table_safe(c) for c in cases) else []
+
+    def load_table(c):
+        """the actions as lines of a table file, read by the real table reader; the Table object stays loaded"""
+        path = os.path.join(scratch[0], "script.table")
+        with open(path, "w") as f:
+            for a in c["acts"]:
+                args = [a[2], a[3]] if implicit_delim(a[3], a[4]) else [a[2], a[3], a[4]]
+                f.write("%s(%s)\n" % ("envAppend" if a[1] else "envPrepend", ", ".join(args)))
+        return T.Table(path, addDefaultProduct=False)
+
+    def run_script(c, stub, via_table=False):
+        """the objects of the table are built ONCE (a table that stays loaded); every step's outcome is recorded.
+        via_table: the objects are those a loaded Table hands out, asked for anew at every step as a setup does"""
+        if via_table:
+            os.environ.clear()
+            os.environ.update(c["env"])
+            tbl = load_table(c)
+        else:
+            objs = [mk(a) for a in c["acts"]]
+        trace = []
+        for st in c["steps"]:
+            before = dict(os.environ)
+            try:
+                if st[0] == "X":
+                    if via_table:
+                        objs = tbl.actions("Linux")
+                    if st[1] < len(objs):
+                        objs[st[1]].execute(stub, 1, st[2])
+                elif st[0] == "E":
+                    os.environ[st[1]] = st[2]
+                else:
+                    os.environ.pop(st[1], None)
+                trace.append({"env": dict(os.environ)})
+            except RuntimeError:
+                trace.append({"err": "Undefined"})
+            except Exception as e:  # noqa
+                trace.append({"err": "Crash:" + type(e).__name__})
+            if "err" in trace[-1] and dict(os.environ) != before:
+                trace[-1]["env-changed-by-failed-step"] = dict(os.environ)
+        return trace
 
     out = []
     for c in cases:
@@ -207,6 +438,12 @@ def impl_batch(cases):
         os.environ.update(c["env"])
         stub = Stub()
         try:
+            if c["op"] == "script":
+                r = {"trace": run_script(c, stub)}
+                if table_safe(c):
+                    r["trace_table"] = run_script(c, Stub(), via_table=True)
+                out.append(r)
+                continue
             if c["op"] == "prepend":
                 act(["P", c["append"], c["var"], c["value"], c["delim"]], c["fwd"], stub)
             elif c["op"] == "set":
@@ -224,6 +461,9 @@ def impl_batch(cases):
             out.append({"err": "Undefined"})
         except Exception as e:  # noqa
             out.append({"err": "Crash:" + type(e).__name__})
+    for d in scratch:
+        import shutil
+        shutil.rmtree(d, ignore_errors=True)
     return out
 
 
@@ -269,10 +509,15 @@ def oracle(c, res):
         if others != {k: x for k, x in env.items() if k != c["var"]}:
             return ("frame", None, "another variable changed")
         if not wf_elem(d, core):
-            if not c["fwd"] or "$" not in core:
+            if "$" not in core:
                 return None
             x = spec_expand3(env, core)
-            if x[0] == "skip":
+            if not c["fwd"]:
+                # unsetup removes exactly the element the action would add (now, in this environment); the
+                # property does not say what unsetup does when the action would add nothing
+                if x[0] != "ok" or not wf_elem(d, x[1]):
+                    return None
+            elif x[0] == "skip":
                 if new != env:
                     return ("guard", env, "action guarded by an undefined variable changed the environment")
                 return None
@@ -348,6 +593,68 @@ def oracle(c, res):
     return None
 
 
+def oracle_script(c, res):
+    """the property at every step of a script: whatever was executed before, an action executed now obeys the laws
+    of a single action in the environment as it is now (first the value is read with the present values of the
+    variables it refers to).  None, or (kind, the case cut after the failing step, expected, what)"""
+    if "trace" not in res:
+        return None
+    cur = dict(c["env"])
+    for n, (st, r) in enumerate(zip(c["steps"], res["trace"])):
+        if st[0] == "X" and st[1] < len(c["acts"]):
+            a = c["acts"][st[1]]
+            sub = None
+            if a[0] == "P":
+                sub = {"op": "prepend", "append": a[1], "fwd": st[2], "var": a[2], "value": a[3], "delim": a[4],
+                       "env": cur}
+            elif a[0] == "S":
+                sub = {"op": "set", "fwd": st[2], "var": a[1], "value": a[2], "env": cur}
+            o = oracle(sub, r) if sub is not None else None
+            if o is not None:
+                times = sum(1 for p in c["steps"][:n] if p[0] == "X" and p[1] == st[1])
+                cut = dict(c, steps=c["steps"][:n + 1])
+                return ("script:" + o[0], cut, o[1],
+                        "step %d (%s of action %d, executed %d times before, environment then %r): %s" %
+                        (n, "setup" if st[2] else "unsetup", st[1], times, cur, o[2]))
+        if "env" in r:
+            cur = dict(r["env"])
+    return None
+
+
+def script_features(c):
+    """what a script exercises (for the histogram): how often one object is executed, and executions of an object
+    that was executed before and whose referenced variables (or list) changed in between"""
+    last = {}
+    changed = {}
+    feats = set()
+    nexec = {}
+    for st in c["steps"]:
+        if st[0] == "X":
+            i = st[1]
+            if i >= len(c["acts"]):
+                continue
+            nexec[i] = nexec.get(i, 0) + 1
+            a = c["acts"][i]
+            if i in last:
+                text = a[3] if a[0] == "P" else a[2] if a[0] == "S" else ""
+                refs = set(re.findall(r"\$\??\{([^-}]*)", text))
+                what = "referenced-variable-changed" if refs & changed[i] else \
+                       "list-changed" if a[0] == "P" and a[2] in changed[i] else "environment-unchanged"
+                feats.add("same object again: %s then %s, %s" % ("setup" if last[i] else "unsetup",
+                                                                 "setup" if st[2] else "unsetup", what))
+            last[i] = st[2]
+            changed[i] = set()
+            for j in changed:
+                if j != i and a[0] == "P":
+                    changed[j].add(a[2])
+                elif j != i and a[0] in ("S", "U"):
+                    changed[j].add(a[1])
+        else:
+            for j in changed:
+                changed[j].add(st[1])
+    return feats, (max(nexec.values()) if nexec else 0)
+
+
 def spec_expand3(env, v):
     """("ok", text) | ("skip",) | ("raise",): references left to right, each by its own variable, else its
     default; the first one with neither decides - guarded ($?{..}) skips the line, unguarded is an error"""
@@ -393,6 +700,34 @@ def compare(ctx, cases):
         raise RuntimeError("implementation driver failed: %r" % (r,))
     ires = r[1]
     for c, m, i in zip(cases, mres, ires):
+        if c["op"] == "script":
+            feats, most = script_features(c)
+            ctx.count(1, key="script/%s/one-object-executed-%s-times" % (c["shape"], most if most < 4 else "4+"),
+                      nontrivial=to_line(c) if most > 1 else None)
+            for f in sorted(feats):
+                ctx.bump("script: " + f)
+            ctx.traces_validated += 1
+            ctx.bump("script steps compared", len(c["steps"]))
+            runs = [("Action objects built once", i.get("trace", []) if "trace" in i else None)]
+            if "trace_table" in i:
+                ctx.bump("script: also through a loaded Table read from a table file")
+                runs.append(("objects of a loaded Table", i["trace_table"]))
+            for how, it in runs:
+                if it is None:
+                    ctx.disagree(c, m, i, where=how)
+                    continue
+                if any(r.get("err", "").startswith("Crash") for r in it):
+                    ctx.bump("impl-crash")
+                mt = m.get("trace", [])
+                if mt != it:
+                    k = next((n for n, (a, b) in enumerate(zip(mt, it)) if a != b), min(len(mt), len(it)))
+                    ctx.disagree(dict(c, steps=c["steps"][:k + 1]), {"trace": mt[:k + 1]}, {"trace": it[:k + 1]},
+                                 where="step %d, %s" % (k, how))
+                o = oracle_script(c, {"trace": it})
+                if o is not None:
+                    ctx.fail(o[0], o[1], expected=o[2], observed={"trace": it[:len(o[1]["steps"])], "how": how},
+                             what=o[3] + " [" + how + "]")
+            continue
         nontrivial = c["shape"] not in ("degenerate",) and (c["op"] != "prepend" or c["env"].get(c["var"]))
         ctx.count(1, key="%s/%s/%s" % (c["op"], c["shape"], "fwd" if c["fwd"] else "rev"),
                   nontrivial=to_line(c) if nontrivial else None)
@@ -421,8 +756,12 @@ def corpus_cases():
 def run(ctx):
     ctx.rule = ("random envPrepend/envAppend/envSet actions (forward and unsetup mode) over 5 delimiters, "
                 "old values of 0-8 pool elements with doubled/leading/trailing delimiters or unset, values plain / "
-                "two-element / with $-references / degenerate, MANPATH flags; plus action sequences; a case is "
-                "non-trivial when the variable had a non-empty prior value and the value is not degenerate; "
+                "two-element / with $-references / degenerate, MANPATH flags; plus action sequences; plus scripts: "
+                "one table of Action objects built once, each executed any number of times forwards and in unsetup "
+                "mode while the list and the referenced variables change in between (same-object / several actions "
+                "on one variable / mixed tables), every step compared with the model and judged by the oracle in "
+                "the environment of that step; a case is non-trivial when the variable had a non-empty prior value "
+                "and the value is not degenerate (a script: when some object is executed more than once); "
                 "distinct = distinct encoded case")
     ctx.trusted_base = common.COMMON_TRUSTED + [
         "modelled, not verified: python re on the delimiter (single non-metacharacter delimiters only), "
@@ -436,6 +775,9 @@ def run(ctx):
         r = ctx.rng.random()
         cases.append(gen_prepend(ctx.rng) if r < 0.6 else gen_set(ctx.rng) if r < 0.75 else
                      gen_seq(ctx.rng) if r < 0.87 else gen_rt(ctx.rng))
+    # scripts after everything else, so that the streams above are what they were
+    for _ in range(ctx.size(4000, 60000)):
+        cases.append(gen_script(ctx.rng))
     for c in cases[:3]:
         ctx.sample(c)
     for i in range(0, len(cases), 20000):
